@@ -270,9 +270,9 @@ pub fn case(ctx: &mut Ctx, idx: u64) {
             GameMode::Osu => {
                 // mirrors the documented rule: stable => classic; lazer => CL mod setting
                 !lazer
-                    || (spec.mods.repr == sets::Repr::Lazer && spec.mods.extra.cl.is_some_and(|c| c.unwrap_or(true)))
+                    || (spec.mods.is_lazer_like() && spec.mods.extra.cl.is_some_and(|c| c.unwrap_or(true)))
             }
-            _ => !lazer || (spec.mods.repr == sets::Repr::Lazer && spec.mods.extra.cl.is_some()),
+            _ => !lazer || (spec.mods.is_lazer_like() && spec.mods.extra.cl.is_some()),
         };
         let units = unit_count(&attrs);
         for k in 0..3 {
